@@ -176,9 +176,18 @@ def monitor(case: dict, r: dict) -> list[tuple[str, str]]:
             if not concurrent:
                 for o, d in obj.items():
                     if live_at(o, q["start"]) and not ("undeploy-exit" in d and d["undeploy-exit"][0] < q["end"]):
-                        failed_wrapper = [w for w in wrappers_of[d["name"]]
-                                          if any(e[1] == "deploy-fail" and e[2] == w for e in log)
-                                          and w in r["maps"].get("dependency_graph", {}).get(d["name"], [])]
+                        dgm = r["maps"].get("dependency_graph", {})
+
+                        def blocked(nm, depth=0):
+                            out = []
+                            for w in wrappers_of[nm]:
+                                if w in dgm.get(nm, []):
+                                    if any(e[1] == "deploy-fail" and e[2] == w for e in log):
+                                        out.append(w)
+                                    elif depth < 4:
+                                        out += blocked(w, depth + 1)
+                            return out
+                        failed_wrapper = blocked(d["name"])
                         key = KB if o in lazy_race else (KC if failed_wrapper else "undeploy_all-left-live")
                         fails.append((key, f"{d['name']} object {o} is live after undeploy_all returned"
                                       + (f" (failed wrappers still among its dependants: {failed_wrapper})" if failed_wrapper else "")))
